@@ -6,6 +6,7 @@
 package block
 
 import (
+	"errors"
 	"io"
 
 	"github.com/ethereum/go-ethereum/rlp"
@@ -37,6 +38,10 @@ func (trf *txsRootFeatures) DecodeRLP(s *rlp.Stream) error {
 		var obj _txsRootFeatures
 		if err := s.Decode(&obj); err != nil {
 			return err
+		}
+		// features == 0 is encoded as the bare root: the list form is not canonical then
+		if obj.Features == 0 {
+			return errors.New("rlp: txs root features must be trimmed")
 		}
 		*trf = txsRootFeatures(obj)
 	} else {
